@@ -223,11 +223,20 @@ fn edges_between(pre: &Machine, post: &Machine, bound: usize) -> i64 {
     c.set_step_mode(StepMode::Real);
     let mut target = post.clone();
     target.set_step_mode(StepMode::Real);
-    for n in 0..=bound {
+    // zero edges only if an edge could not have been observed: halted, or a fix-point of the clock edge
+    // (a tight loop such as `JR -2` returns to the SAME state after a positive number of edges)
+    if c == target {
+        let mut probe = c.clone();
+        probe.trigger_key_clock();
+        if probe == c {
+            return 0;
+        }
+    }
+    for n in 1..=bound {
+        c.trigger_key_clock();
         if c == target {
             return n as i64;
         }
-        c.trigger_key_clock();
     }
     -1
 }
@@ -446,6 +455,58 @@ impl<W: Write> Runner<W> {
                         }
                     }
                 }
+            }
+            "probe" => {
+                // apply a reset / load to a CLONE and log its state; the history machine is not disturbed
+                let kind = v.get("kind").and_then(|x| x.as_str()).unwrap_or("cpu_reset").to_string();
+                let image = bytes_of(v, "image");
+                let ss = geti(v, "ss").unwrap_or(16);
+                let ps = geti(v, "ps").unwrap_or(-1);
+                let mut c = self.m.clone();
+                let r = catch_unwind(AssertUnwindSafe(|| match kind.as_str() {
+                    "cpu_reset" => c.cpu_reset(),
+                    "master_reset" => c.master_reset(),
+                    _ => c.load(bytecode_of(&image, ss, ps)),
+                }));
+                match r {
+                    Ok(()) => {
+                        self.seq += 1;
+                        self.events += 1;
+                        let ev = json!({"seq": self.seq, "op": "probe", "a": {"kind": kind, "image": image, "ss": ss, "ps": ps},
+                            "s": machine_json(&c, true)});
+                        writeln!(self.out, "{}", ev).unwrap();
+                    }
+                    Err(e) => self.emit_panic(&op, v.clone(), panic_msg(e)),
+                }
+            }
+            "lockstep" => {
+                // load the program here AND into a newly created machine; run both n edges; compare the
+                // registers, sequencer, RAM, inputs/outputs and state after every cycle
+                let image = bytes_of(v, "image");
+                let ss = geti(v, "ss").unwrap_or(16);
+                let ps = geti(v, "ps").unwrap_or(-1);
+                let mut fresh = Machine::new(MachineConfig::default());
+                fresh.load(bytecode_of(&image, ss, ps));
+                self.m.load(bytecode_of(&image, ss, ps));
+                self.emit("load", json!({"image": image, "ss": ss, "ps": ps}), true, None);
+                let mut diff: i64 = -1;
+                for i in 0..n {
+                    self.m.raw_mut().trigger_clock_edge();
+                    fresh.raw_mut().trigger_clock_edge();
+                    let a = self.m.verif_snapshot();
+                    let b = fresh.verif_snapshot();
+                    let same = a == b
+                        && self.m.registers().content() == fresh.registers().content()
+                        && self.m.bus().memory()[..] == fresh.bus().memory()[..]
+                        && self.m.bus().output_fe() == fresh.bus().output_fe()
+                        && self.m.bus().output_ff() == fresh.bus().output_ff()
+                        && self.m.stacksize() == fresh.stacksize()
+                        && self.m.programsize() == fresh.programsize();
+                    if !same && diff < 0 {
+                        diff = i;
+                    }
+                }
+                self.emit("lockstep", json!({"n": n, "first_diff": diff}), false, None);
             }
             "mode" => {
                 let md = v.get("v").and_then(|x| x.as_str()).unwrap_or("Real");
